@@ -6,10 +6,15 @@ import (
 	"os"
 
 	"verif/core"
+	"verif/progcheck"
 	"verif/rtcheck"
 )
 
 var checks = map[string]func(tier string) *core.Report{
+	"C01": progcheck.C01,
+	"C02": progcheck.C02,
+	"C11": progcheck.C11,
+	"C18": progcheck.C18,
 	"C08": rtcheck.C08,
 	"C09": rtcheck.C09,
 	"C10": rtcheck.C10,
